@@ -141,6 +141,17 @@ func genLoop(r *rand.Rand, b *strings.Builder, id *int, depth int, outerVar stri
 	if typ == "int8" {
 		hi = []string{"n & 15", "10", "120"}[r.Intn(3)]
 	}
+	if typ == "int" && r.Intn(6) == 0 {
+		// a constant on the LEFT of a non-commutative operator in the start or the limit
+		switch r.Intn(3) {
+		case 0:
+			hi = []string{"10 - n", "9 - m", "24 / (m&3 + 1)"}[r.Intn(3)]
+		case 1:
+			lo = []string{"3 - n", "2 - m"}[r.Intn(2)]
+		default:
+			lo, hi = "1 - n", "12 - m"
+		}
+	}
 	divDecl := ""
 	if typ == "int" && r.Intn(8) == 0 {
 		// bounds computed by a division / remainder with a negative dividend that is often
